@@ -48,6 +48,8 @@ type Case struct {
 	Probe bool `json:"probe,omitempty"`
 	// HoldAtEnd: handlers that are gated stay blocked until after the probes (C04: a never-releasing handler)
 	HoldAtEnd bool `json:"hold_at_end,omitempty"`
+	// ProbeSleepUs is the latency of the probes' handlers (0 = they answer at once).
+	ProbeSleepUs int `json:"probe_sleep_us,omitempty"`
 	// Down lists servers that are never started.
 	Down []int `json:"down,omitempty"`
 	// CtxCheck: before the gates are opened, every call whose context has ended
@@ -551,6 +553,9 @@ func Run(c Case, h Hooks) Result {
 				pr := Probe{Mgr: mi, Server: s}
 				for attempt := 0; attempt < 6; attempt++ {
 					tok := scen.NewTokens(1)
+					if c.ProbeSleepUs > 0 {
+						cl.SetBehaviour(s, tok, scen.Behaviour{SleepUs: c.ProbeSleepUs})
+					}
 					p := client.NewCall(10000+mi*c.N+s, tok, uint64(100000+s), scen.CallSpec{Kind: "RPC", Node: s, Ctx: "cancel", Thread: 99})
 					go p.Issue()
 					r, sig := scen.Await(p.DoneCh(), scen.B)
